@@ -275,7 +275,7 @@ func c08histChild(raw json.RawMessage, scratch string) {
 	var mu sync.Mutex
 	for i := a.Start; i < a.End; i++ {
 		rng := base.At(uint64(i))
-		c := &c08case{Index: i, Resume: ex.Resume, StartOffset: []int64{0, 1, 1<<31 - 5, 1 << 40}[i%4], Traffic: []string{"early-burst", "burst-idle-burst", "trickle", "during-full-sync"}[i/4%4],
+		c := &c08case{Index: i, Resume: ex.Resume, StartOffset: []int64{0, 1, 1<<31 - 5, 1 << 40, 1<<32 - 300}[i%5], Traffic: []string{"early-burst", "burst-idle-burst", "trickle", "during-full-sync"}[i/4%4],
 			Drop: []string{"none", "boundary", "mid", "after-boundary", "twice", "idle"}[i%6], Commands: rng.Pick(40, 120)}
 		mu.Lock()
 		wk.ChildCase(i, c)
